@@ -5,7 +5,9 @@ import common, extract, libgen, fitlib, oracle_mdl
 
 LEAN_MODULE = ["ESRVerif.Props.C20", "ESRVerif.Props.C20b"]
 LEVEL = "other"
-LEVEL_TEXT = ("Partial proof. (1) Decided in Lean on tables regenerated from fit_single.single_function: the returned description length is the sum, in source "
+LEVEL_TEXT = ("Partial proof. (1) Decided in Lean on tables regenerated from fit_single.single_function by symbolic execution (values named by the routine and result "
+              "index they come from, not by local variable; per path of the flags is_mse / return_params / verbose): the first returned value is element 1 of the Fisher "
+              "routine's result, the returned description length is the left-nested sum, in source "
               "order, of the likelihood term and the parameter code length returned by ONE call of the Fisher routine and the tree code length; the three "
               "routines are the pipeline's own (optimise_fun of the fitting stage, convert_params of the Fisher stage, aifeyn_complexity of the generator), so "
               "the theorems of C10, C07 and C08 (incl. single_function_agrees) apply to the single-tree API verbatim. (2) Proved in Lean (Props/C20b, unbounded): "
@@ -21,16 +23,22 @@ LEVEL_TEXT = ("Partial proof. (1) Decided in Lean on tables regenerated from fit
               "match.main on a library of own-unique functions), independent of the optimiser. NOT proved: that two independent "
               "optimiser runs reach the same optimum (MinimiserSpec) - sampled on every run: the single-tree API (labels entry point and formula-string "
               "entry point) against the pipeline's rows for the same trees and against the closed-form value for trees linear in their parameters, "
-              "and the exact-sum identity on the values the API itself reports.")
+              "and the exact-sum identity on the values the API itself reports and on the values the traced routines returned inside the call; trees with integer "
+              "constants (repeated ones included) and data sets built so that one parameter is snapped to zero are fitted through both entry points too; step (4) "
+              "(tree code length) is compared with k ln n + sum ln|c| and with the Lean model on PRNG label lists.")
 TECHNIQUE = ("Lean 4 decision over the regenerated assembly of single_function + Lean 4 proof that the Fisher-stage and matching-stage copies of the snapping / "
              "code-length logic coincide on the identity chain (hand models of C07/C05) + differential runs of the two real routines on the same inputs + "
              "differential runs single API vs pipeline vs closed form")
 RULE = ("one case = one (data set, tree) fitted through single_function and fit_from_string, compared with the pipeline row of the same line and the closed form; "
-        "non-trivial = the tree has >=1 parameter, is linear in them and is not within 5% of a snapping threshold; distinct by (data seed, tree).  "
+        "non-trivial = the tree has >=1 parameter, is linear in them and is not within 5% of a snapping threshold; distinct by (data seed, tree) - library trees, "
+        "integer-constant trees and designed snapped-parameter data sets.  Step (4): one case = one PRNG label list through aifeyn_complexity as single_function calls it, "
+        "non-trivial = it holds an integer or a parameter.  "
         "Fisher-vs-match: one case = one (data set, linear model, theta) pushed through the real convert_params and then, via the stage files, through the real "
         "match.main; distinct by (number of parameters, basis functions, per-coordinate threshold class and sign); non-trivial = at least one parameter")
 EXPLANATION = LEVEL_TEXT
-TRUSTED = ["harness/oracle_mdl.py (closed form)", "harness/extractors/single.py",
+TRUSTED = ["harness/oracle_mdl.py (closed form)", "harness/extractors/single.py + harness/extractors/_norm_c20.py (symbolic reading of single_function; normalisations N1-N8 of its docstring: "
+           "local names/temporaries replaced by the value they hold, tuple/chained/unpacking assignment, conditional expression vs if/else and result variable vs early return (per-path returned value), "
+           "not/and/or/bool() of flag parameters, import spelling of a callee, one level of straight-line helper/closure inlining, print/pass/docstrings without value; sums keep order and association)",
            "hand models ESRVerif/Model/Codelen.lean and ESRVerif/Model/Match.lean (tied to the code by the correspondences of C07 and C05, and here by the direct "
            "differential run of the two real routines)", "'%.7e' text round-off between stages (decisions compared exactly away from |Nsteps-1| < 1e-6 and at exactly "
            "representable thresholds; magnitudes to 1e-6)"]
@@ -40,7 +48,14 @@ ASSUMPTIONS = ["MinimiserSpec (numerical): sampled with tolerance 5e-3 in NLL/DL
                "the matching stage reads negloglike_comp<n>.dat (optimiser output) and derivs_comp<n>.dat (Fisher stage), never the Fisher stage's reported parameters (codelen_comp<n>_deriv.dat has no reader)"]
 # tables whose committed version may stand in as a hand-written model when the translator cannot read the source;
 # value = the correspondence that then ties it to the code (common.prove / common.decide)
-FALLBACK = {'Aifeyn': 'as C08', 'Codelen': 'as C07', 'Match': 'as C05', 'Single': "single_function's returned terms vs the real pipeline routines called separately on the same tree and data"}
+FALLBACK = {'Aifeyn': "real aifeyn_complexity vs the Lean model (op aifeyn) and vs k ln n + sum ln|c|: on the (labels, param_list) single_function itself passes (traced) and "
+                      "on PRNG label lists with repeated/negative/zero integers called as step (4) of single_function calls it (corr:aifeyn-step4, tree-codelen)",
+            'Codelen': "the statement of fisher_vs_match_identity_chain checked directly on the two REAL routines (real convert_params -> stage files -> real match.main, exact-threshold rows "
+                       "included; fisher-vs-match:*), and hfin_needed's predicted difference on the real routines (corr:hfin_needed); the model-vs-code comparison of this table is C07's",
+            'Match': "as Codelen (the same differential run drives the real match.main); the model-vs-code comparison of this table is C05's",
+            'Single': "the real routines traced inside the real single_function (optimise_fun, run_sympify, convert_params, aifeyn_complexity wrapped wherever fit_single reaches them): "
+                      "order of the calls = theorem call_order, returned nll bit-identical to convert_params(...)[1], returned DL bit-identical to (cp[1] + cp[3]) + aifeyn_complexity(...) "
+                      "(corr:single-trace), on library trees and integer-constant trees, plus single API vs closed form vs pipeline row"}
 MODELLED = ["fit_single.py:single_function", "fit_single.py:fit_from_string", "test_all_Fisher.py:convert_params", "match.py:main"]
 
 TOL = 5e-3
@@ -353,6 +368,286 @@ def excluded_point(ctx):
         runs=wit)
 
 
+# =====================================================================================================================
+# single_function as executed: the real routines traced inside the real single_function (tie of Generated/Single.lean)
+# =====================================================================================================================
+
+TRACE_ORDER = ["optimise_fun", "run_sympify", "convert_params", "aifeyn_complexity"]        # theorem call_order
+
+
+class _Trace(object):
+    """Wraps, for the duration of ONE call of fit_single.single_function, the three pipeline routines wherever fit_single can
+    reach them (module attribute and every global of fit_single bound to the same function object) and the likelihood
+    object's run_sympify.  Records (name, args, kwargs, result) of the calls made by single_function itself (calls a traced
+    routine makes internally - optimise_fun parses the function too - are not recorded)."""
+
+    def __init__(self, fs, lik):
+        import esr.fitting.test_all as ta
+        import esr.fitting.test_all_Fisher as taf
+        import esr.generation.generator as gen
+        self.fs, self.lik = fs, lik
+        self.targets = [("optimise_fun", ta), ("convert_params", taf), ("aifeyn_complexity", gen)]
+        self.calls, self.depth, self.undo = [], 0, []
+
+    def _wrap(self, name, f):
+        def w(*a, **k):
+            top = self.depth == 0
+            self.depth += 1
+            try:
+                r = f(*a, **k)
+            finally:
+                self.depth -= 1
+            if top:
+                self.calls.append((name, a, k, r))
+            return r
+        return w
+
+    def __enter__(self):
+        for name, mod in self.targets:
+            orig = getattr(mod, name)
+            w = self._wrap(name, orig)
+            self.undo.append((mod, name, orig)); setattr(mod, name, w)
+            for k, v in list(vars(self.fs).items()):
+                if v is orig:
+                    self.undo.append((self.fs, k, orig)); setattr(self.fs, k, w)
+        self.lik.run_sympify = self._wrap("run_sympify", type(self.lik).run_sympify.__get__(self.lik))
+        return self
+
+    def __exit__(self, *exc):
+        for mod, name, orig in reversed(self.undo):
+            setattr(mod, name, orig)
+        try:
+            del self.lik.run_sympify
+        except AttributeError:
+            pass
+        return False
+
+
+def _bits(v):
+    v = float(v)
+    return "nan" if v != v else common.f2b(v)
+
+
+def _trace_compare(tr, nll, DL, params):
+    """what Generated/Single.lean says (theorems call_order, single_DL_is_sum, returns_nll_and_DL) against the calls the real
+    single_function made -> (list of corr messages, dict(cp_nll, codelen, aifeyn, aifeyn_args) or None)"""
+    names = [c[0] for c in tr.calls]
+    if names != TRACE_ORDER:
+        return ["routines called by single_function, in order: %r (table: %r)" % (names, TRACE_ORDER)], None
+    cp = tr.calls[2][3]
+    aif = tr.calls[3][3]
+    try:
+        cp_nll, cp_codelen = float(cp[1]), float(cp[3])
+        aif = float(aif)
+    except Exception as e:
+        return ["results of convert_params / aifeyn_complexity are not (params, nll, deriv, codelen) / a number: %r" % (e,)], None
+    bad = []
+    if _bits(nll) != _bits(cp_nll):
+        bad.append("returned likelihood term %r is not convert_params(...)[1] = %r" % (float(nll), cp_nll))
+    want = (cp_nll + cp_codelen) + aif
+    if _bits(DL) != _bits(want):
+        bad.append("returned DL %r is not (convert_params[1] + convert_params[3]) + aifeyn_complexity() = (%r + %r) + %r = %r" % (float(DL), cp_nll, cp_codelen, aif, want))
+    a = tr.calls[3][1]
+    info = dict(cp_nll=cp_nll, codelen=cp_codelen, aifeyn=aif, aifeyn_args=([str(l) for l in a[0]], [str(q) for q in a[1]]) if len(a) == 2 else None)
+    return bad, info
+
+
+def _dataset(seed):
+    rs = np.random.default_rng(seed)
+    x = np.linspace(0.5, 3.0, 24); s = np.full(24, 0.2)
+    y = rs.choice([1.3, -0.7]) * x + rs.choice([0.0, 2.0]) + rs.normal(0, 0.2, 24)
+    return rs, x, y, s
+
+
+def _single_case(fs, lik, labels, f, cf, np_seed, with_string=True):
+    """ONE tree through the real single_function (traced) and fit_from_string, against the closed form, the exact-sum
+    statement and the independent tree code length -> dict(fails=[(key, what)], corr=[msg], raised=..., values...)"""
+    out = dict(fails=[], corr=[], raised=None, aifeyn_call=None)
+    buf = io.StringIO()
+    np.random.seed(np_seed)
+    tr = _Trace(fs, lik)
+    try:
+        with tr, contextlib.redirect_stdout(buf):
+            nll, DL, params = fs.single_function(list(labels), BASIS, lik, verbose=True, return_params=True, Niter=60, Nconv=10)
+    except Exception as e:
+        out["raised"] = e
+        out["fails"].append(("single_function-raises:%s" % type(e).__name__, "single_function(%r) raises %r" % (labels, e)))
+        return out
+    out.update(nll=float(nll), DL=float(DL))
+    rep = _parse_verbose(buf.getvalue())
+    out["reported"] = rep
+    # (a) exact sum of the values the API itself reports
+    if all(k in rep for k in ("nll", "codelen", "aifeyn")):
+        if not (abs((rep["nll"] + rep["codelen"] + rep["aifeyn"]) - DL) <= 1e-9 * max(1.0, abs(DL))):
+            out["fails"].append(("single-not-sum", "single_function(%r): returned DL %.12g is not the sum of its reported terms %.12g + %.12g + %.12g" % (labels, DL, rep["nll"], rep["codelen"], rep["aifeyn"])))
+        if abs(rep["nll"] - nll) > 1e-9 * max(1.0, abs(nll)):
+            out["fails"].append(("single-nll-mismatch", "single_function(%r) returns nll %.12g but reports %.12g" % (labels, nll, rep["nll"])))
+    # (a') the same statement on the values the routines really returned inside single_function (no print format involved)
+    bad, info = _trace_compare(tr, nll, DL, params)
+    out["corr"] += ["single_function(%r): %s" % (labels, b) for b in bad]
+    if info is not None:
+        out["aifeyn_call"] = (info["aifeyn_args"], info["aifeyn"])
+        if not (abs((nll + info["codelen"] + info["aifeyn"]) - DL) <= 1e-9 * max(1.0, abs(DL))):
+            out["fails"].append(("single-not-sum", "single_function(%r): returned DL %.12g is not returned likelihood term %.12g + parameter code length %.12g + tree code length %.12g "
+                                 "(the values convert_params and aifeyn_complexity returned inside the call)" % (labels, DL, nll, info["codelen"], info["aifeyn"])))
+        want = oracle_mdl.aifeyn(labels)
+        if abs(info["aifeyn"] - want) > 1e-9 * max(1.0, abs(want)):
+            out["fails"].append(("single-tree-codelen", "single_function(%r): the tree code length it adds is %.12g, k ln n + sum ln|c| = %.12g" % (labels, info["aifeyn"], want)))
+    # (b) closed form
+    dl_cf = cf["nll"] + cf["codelen"] + oracle_mdl.aifeyn(labels)
+    out["dl_cf"] = dl_cf
+    if abs(nll - cf["nll"]) > TOL or abs(DL - dl_cf) > 2 * TOL:
+        out["fails"].append(("single-vs-closed-form", "single_function(%r): nll %.8g DL %.8g, closed form nll %.8g DL %.8g" % (labels, nll, DL, cf["nll"], dl_cf)))
+    # (d) the formula-string entry point on the same function
+    if with_string:
+        try:
+            with contextlib.redirect_stdout(io.StringIO()):
+                np.random.seed(np_seed)
+                res = fs.fit_from_string(f, BASIS, lik, verbose=False, Niter=60, Nconv=10)
+            nll2, DL2, lab2 = res[0], res[1], res[2]
+            if len(lab2) == len(labels):
+                dl2_cf = cf["nll"] + cf["codelen"] + oracle_mdl.aifeyn(lab2)
+                if abs(nll2 - cf["nll"]) > TOL or abs(DL2 - dl2_cf) > 2 * TOL:
+                    out["fails"].append(("string-entry-vs-closed-form", "fit_from_string(%r) -> labels %r: nll %.8g DL %.8g, closed form nll %.8g DL %.8g" % (f, lab2, nll2, DL2, cf["nll"], dl2_cf)))
+                out["string_compared"] = True
+        except Exception:
+            out["string_raised"] = True
+    return out
+
+
+# ---- data sets on which a parameter IS snapped to zero (the likelihood term is then re-evaluated by the Fisher routine) ---------
+
+SNAP_TREES = [(["+", "a0", "*", "a1", "x"], "a0 + a1*x"), (["+", "*", "a0", "x", "*", "a1", "inv", "x"], "a0*x + a1/x"),
+              (["-", "*", "a0", "x", "a1"], "a0*x - a1"), (["+", "*", "a0", "x", "*", "a1", "*", "x", "x"], "a0*x + a1*x*x"),
+              (["+", "a0", "/", "a1", "x"], "a0 + a1/x")]
+
+
+def _snap_data(rng, seed, f):
+    """(x, y, s, closed form, j, Nsteps) with y shifted along one column of the (linear) model so that the weighted-least-squares
+    value of parameter j sits at a prescribed fraction (0.3 .. 0.8) of its precision step: clearly snapped, far from the threshold"""
+    rs, x, y, s = _dataset(seed)
+    m = oracle_mdl.linear_model(f)
+    if m is None:
+        return None
+    k, cols, off = m
+    X = np.column_stack([np.broadcast_to(np.asarray(c(x), dtype=float), x.shape) for c in cols])
+    o = np.broadcast_to(np.asarray(off(x), dtype=float), x.shape)
+    W = 1.0 / s ** 2
+    A = X.T @ (X * W[:, None])
+    theta = np.linalg.solve(A, X.T @ (W * (y - o)))
+    j = rng.randrange(k)
+    nst = rng.choice([0.3, 0.45, 0.6, 0.8])
+    target = rng.choice([-1.0, 1.0]) * nst * math.sqrt(12.0 / A[j, j])
+    y2 = y - X[:, j] * (theta[j] - target)                      # least squares is linear in y: theta_j moves to `target`, the others stay
+    cf = oracle_mdl.closed_form(x, y2, s, m)
+    if cf is None or cf["margin"] < 0.05 or bool(cf["kept"][j]):
+        return None
+    return x, y2, s, cf, j, nst
+
+
+def snapping_cases(ctx, fs, L, deep, tstat, aif_calls):
+    for t in range(3 if not deep else 10):
+        labels, f = SNAP_TREES[(ctx.seed + t) % len(SNAP_TREES)] if t < len(SNAP_TREES) else ctx.rng.choice(SNAP_TREES)
+        seed = ctx.seed * 50 + 40 + t
+        sd = _snap_data(ctx.rng, seed, f)
+        if sd is None:
+            continue
+        x, y, s, cf, j, nst = sd
+        dd = os.path.join(ctx.tmp, "c20_snap%d" % t); os.makedirs(dd)
+        fitlib.write_data(os.path.join(dd, "d.txt"), x, y, s)
+        with contextlib.redirect_stdout(io.StringIO()):
+            lik = L.GaussLikelihood("d.txt", "c20snap_%d" % t, data_dir=dd, fn_set="core_maths")
+        rp = dict(kind="single", seed=seed, labels=list(labels), fcn=f, np_seed=seed, form="snapped", y=[float(v) for v in y])
+        res = _single_case(fs, lik, labels, f, cf, seed)
+        ctx.case((seed, tuple(labels), "snapped"), nontrivial=True)
+        tstat["snapped_designed"] = tstat.get("snapped_designed", 0) + 1
+        for key, what in res["fails"]:
+            ctx.fail(key, what + " [parameter a%d at %.2f precision steps from zero: snapped]" % (j, nst), rp)
+        for msg in res["corr"]:
+            ctx.disagree("corr:single-trace", msg)
+        if res["raised"] is None:
+            tstat["traced"] += 1
+            if res["aifeyn_call"] is not None and res["aifeyn_call"][0] is not None:
+                aif_calls.append(res["aifeyn_call"])
+            ctx.sample(dict(labels=labels, fcn=f, snapped_parameter=j, nsteps=nst, single=[res["nll"], res["DL"]], closed_form=[cf["nll"], res["dl_cf"]]), cap=5)
+
+
+# ---- trees with integer constants (none in the generated libraries): the tree code length term inside the single API -----------
+
+def _int_trees(rng, count):
+    """(labels, independent formula, kind) of trees linear in their parameters holding integer exponents; `repeated` = the same
+    integer |n| >= 2 at two nodes"""
+    out = []
+    for t in range(count):
+        k = rng.choice([2, 3])
+        m = rng.choice([j for j in (2, 3, 4) if j != k])
+        form = ["rep-offset", "rep-two-params", "distinct", "rep-same-power", "single"][t % 5] if t < 5 else rng.choice(["rep-offset", "rep-two-params", "distinct", "rep-same-power", "single"])
+        if form == "rep-offset":
+            out.append((["+", "*", "a0", "pow", "x", str(k), "pow", "inv", "x", str(k)], "a0*x**%d + (1/x)**%d" % (k, k), form))
+        elif form == "rep-two-params":
+            out.append((["+", "*", "a0", "pow", "x", str(k), "*", "a1", "pow", "inv", "x", str(k)], "a0*x**%d + a1*(1/x)**%d" % (k, k), form))
+        elif form == "distinct":
+            out.append((["+", "*", "a0", "pow", "x", str(k), "pow", "x", str(m)], "a0*x**%d + x**%d" % (k, m), form))
+        elif form == "rep-same-power":
+            out.append((["+", "*", "a0", "pow", "x", str(k), "pow", "x", str(k)], "a0*x**%d + x**%d" % (k, k), form))
+        else:
+            out.append((["+", "a0", "pow", "x", str(k)], "a0 + x**%d" % k, form))
+    return out
+
+
+_INT_POOL = ["2", "3", "2", "-2", "5", "12", "0", "1", "-1", "-7", "10"]
+
+
+def tree_codelen_step(ctx, N):
+    """step (4) of single_function on its own - `aifeyn_complexity(labels, ['a0', .., 'a<max_param-1>'])` - on PRNG label lists with
+    repeated / negative / zero / multi-digit integers: real routine vs k ln n + sum ln|c| (property oracle) and vs the Lean
+    model (`aifeyn` op: tie of Generated/Aifeyn.lean for this property)"""
+    import esr.generation.generator as generator
+    rng = ctx.rng
+    ops = [b for grp in BASIS for b in grp if b != "a"]
+    cases = []
+    for t in range(N):
+        L = rng.randint(2, 12)
+        m = rng.randint(0, 3)
+        pool = rng.sample(_INT_POOL, rng.randint(1, 3))
+        labels = [rng.choice(ops)]
+        for _ in range(L - 1):
+            r = rng.random()
+            labels.append(rng.choice(ops) if r < 0.45 else ("a%d" % rng.randrange(m) if (r < 0.65 and m) else rng.choice(pool)))
+        rng.shuffle(labels)
+        used = [int(l[1:]) for l in labels if re.fullmatch(r"a\d+", l)]
+        cases.append((labels, ["a%i" % j for j in range(max(used) + 1 if used else 0)]))
+    lines = [" ".join(("aifeyn %d %s %d %s" % (len(l), " ".join(l), len(p), " ".join(p))).split()) for l, p in cases]
+    stats = dict(cases=len(cases), repeated_integer=0, model_mismatch=0, oracle_mismatch=0)
+    try:
+        mo = common.model(lines)
+    except Exception as e:
+        ctx.disagree("corr:aifeyn-step4", "model driver: %r" % (e,)); mo = None
+    for j, (labels, plist) in enumerate(cases):
+        ints = [l for l in labels if re.fullmatch(r"-?\d+", l)]
+        rep = any(abs(int(c)) >= 2 and ints.count(c) >= 2 for c in ints)
+        stats["repeated_integer"] += int(rep)
+        ctx.case(("step4", tuple(labels)), nontrivial=bool(ints) or bool(plist))
+        try:
+            with np.errstate(all="ignore"):
+                val = float(generator.aifeyn_complexity(list(labels), list(plist)))
+        except Exception as e:
+            ctx.fail("tree-codelen-raises:%s" % type(e).__name__, "aifeyn_complexity(%r, %r) raises %r" % (labels, plist, e), dict(kind="step4", labels=labels, params=plist)); continue
+        want = oracle_mdl.aifeyn(labels)
+        if not _close(val, want, 1e-9, 1e-12):
+            stats["oracle_mismatch"] += 1
+            ctx.fail("tree-codelen:%s" % ("repeated-integer" if rep else "other"),
+                     "step (4) of single_function: aifeyn_complexity(%r, %r) = %.12g but k ln n + sum ln|c| = %.12g" % (labels, plist, val, want),
+                     dict(kind="step4", labels=labels, params=plist))
+        if mo is not None:
+            mt = mo[j].split()
+            if not (len(mt) == 5 and mt[0] == "ok" and _close(common.b2f(mt[1]), val, 1e-9, 1e-12)):
+                stats["model_mismatch"] += 1
+                ctx.disagree("corr:aifeyn-step4", "%s: code=%r model=%s" % (lines[j], val, mo[j]))
+    ctx.extra["tree_codelen_step"] = stats
+    return stats
+
+
 def run(ctx):
     deep = not ctx.quick
     drift = extract.drifted(ctx.proof.get("extract", {}), ["test_all_Fisher.py:convert_params", "match.py:main", "simplifier.py:convert_params"]) if ctx.proof else []
@@ -361,7 +656,10 @@ def run(ctx):
     # ---- Fisher stage vs matching stage, the two real routines on the same inputs --------------------------------------
     import time as _time
     t0 = _time.time()
-    fisher_vs_match(ctx, deep or bool(drift))
+    # a table the translator could not re-read escalates the part of the run that ties THAT table to the code
+    single_tables = ("table:Single", "table:Aifeyn")
+    deep_single = deep or any(d in single_tables for d in drift)
+    fisher_vs_match(ctx, deep or any(d not in single_tables for d in drift))
     excluded_point(ctx)
     ctx.extra["fisher_vs_match_wall_s"] = round(_time.time() - t0, 2)
     comp = 4
@@ -372,12 +670,14 @@ def run(ctx):
     import esr.fitting.fit_single as fs
     funs = {n: libgen.read_funs(libgen.libfile(g["dir"], n, "all_equations")) for n in range(1, comp + 1)}
     trees = {n: libgen.read_trees(libgen.libfile(g["dir"], n, "orig_trees")) for n in range(1, comp + 1)}
-    nsets = 2 if not deep else 6
+    # ---- step (4) on its own: tree code length of label lists with integer constants (cheap, no fit) ----------------------
+    tree_codelen_step(ctx, 300 if not deep_single else 3000)
+    nsets = 2 if not deep_single else 6
+    tstat = dict(traced=0, aifeyn_calls_vs_model=0, int_trees=0, int_trees_repeated=0)
+    aif_calls = []
     for d in range(nsets):
         seed = ctx.seed * 50 + d
-        rs = np.random.default_rng(seed)
-        x = np.linspace(0.5, 3.0, 24); s = np.full(24, 0.2)
-        y = rs.choice([1.3, -0.7]) * x + rs.choice([0.0, 2.0]) + rs.normal(0, 0.2, 24)
+        rs, x, y, s = _dataset(seed)
         dd = os.path.join(ctx.tmp, "c20_%d" % d); os.makedirs(dd)
         fitlib.write_data(os.path.join(dd, "d.txt"), x, y, s)
         n = ctx.rng.choice([3, 4])
@@ -399,50 +699,70 @@ def run(ctx):
                 continue
             cands.append((i, labels, f, cf))
         ctx.rng.shuffle(cands)
-        for i, labels, f, cf in cands[: (5 if not deep else 14)]:
-            rp = dict(rp0, line=i, labels=labels)
-            buf = io.StringIO()
-            np.random.seed(seed + i)
-            try:
-                with contextlib.redirect_stdout(buf):
-                    nll, DL, params = fs.single_function(list(labels), BASIS, lik, verbose=True, return_params=True, Niter=60, Nconv=10)
-            except Exception as e:
-                ctx.fail("single_function-raises:%s" % type(e).__name__, "single_function(%r) raises %r" % (labels, e), rp); continue
-            rep = _parse_verbose(buf.getvalue())
+        # trees with a parameter the closed form snaps to zero first (up to 2 / 5): there the Fisher routine re-evaluates the likelihood
+        snapped = [c for c in cands if not all(c[3]["kept"])][: (2 if not deep_single else 5)]
+        cands = snapped + [c for c in cands if not any(c is q for q in snapped)]
+        tstat["snapped_first"] = tstat.get("snapped_first", 0) + len(snapped)
+        todo = [(i, labels, f, cf, "library") for i, labels, f, cf in cands[: (5 if not deep_single else 14)]]
+        # + trees with integer constants (no pipeline row: the generated libraries hold none), repeated integers included
+        k_int = 0
+        for labels, f, form in _int_trees(ctx.rng, 5 if not deep_single else 10):
+            m = oracle_mdl.linear_model(f)
+            cf = oracle_mdl.closed_form(x, y, s, m) if m is not None else None
+            if cf is None or cf["margin"] < 0.05:
+                continue
+            if k_int >= (3 if not deep_single else 8):
+                break
+            k_int += 1
+            todo.append((None, labels, f, cf, form))
+        for i, labels, f, cf, form in todo:
+            np_seed = seed + (i if i is not None else 1000 + len(labels))
+            rp = dict(rp0, line=i, labels=list(labels), fcn=f, np_seed=np_seed, form=form)
+            res = _single_case(fs, lik, labels, f, cf, np_seed)
             ctx.case((seed, tuple(labels)), nontrivial=True)
-            # (a) exact sum of the values the API itself reports
-            if all(k in rep for k in ("nll", "codelen", "aifeyn")):
-                if not (abs((rep["nll"] + rep["codelen"] + rep["aifeyn"]) - DL) <= 1e-9 * max(1.0, abs(DL))):
-                    ctx.fail("single-not-sum", "single_function(%r): returned DL %.12g is not the sum of its reported terms %.12g + %.12g + %.12g" % (labels, DL, rep["nll"], rep["codelen"], rep["aifeyn"]), rp)
-                if abs(rep["nll"] - nll) > 1e-9 * max(1.0, abs(nll)):
-                    ctx.fail("single-nll-mismatch", "single_function(%r) returns nll %.12g but reports %.12g" % (labels, nll, rep["nll"]), rp)
-            # (b) closed form
-            dl_cf = cf["nll"] + cf["codelen"] + oracle_mdl.aifeyn(labels)
-            if abs(nll - cf["nll"]) > TOL or abs(DL - dl_cf) > 2 * TOL:
-                ctx.fail("single-vs-closed-form", "single_function(%r): nll %.8g DL %.8g, closed form nll %.8g DL %.8g" % (labels, nll, DL, cf["nll"], dl_cf), rp)
+            if form != "library":
+                tstat["int_trees"] += 1; tstat["int_trees_repeated"] += int(form.startswith("rep"))
+            for key, what in res["fails"]:
+                ctx.fail(key, what, rp)
+            for msg in res["corr"]:
+                ctx.disagree("corr:single-trace", msg)
+            if res["raised"] is not None:
+                continue
+            tstat["traced"] += 1
+            if res["aifeyn_call"] is not None and res["aifeyn_call"][0] is not None:
+                aif_calls.append(res["aifeyn_call"])
+            nll, DL = res["nll"], res["DL"]
             # (c) the pipeline's row for the same line
-            if i < cm.shape[0] and np.isfinite(cm[i, 1]):
+            if i is not None and i < cm.shape[0] and np.isfinite(cm[i, 1]):
                 dl_pipe = cm[i, 0] + cm[i, 1] + af[i]
                 if abs(nll - cm[i, 0]) > TOL or abs(DL - dl_pipe) > 2 * TOL:
                     ctx.fail("single-vs-pipeline", "tree %r (line %d): single API nll %.8g DL %.8g, pipeline row nll %.8g DL %.8g" % (labels, i, nll, DL, cm[i, 0], dl_pipe), rp)
-            # (d) the formula-string entry point on the same function
-            try:
-                with contextlib.redirect_stdout(io.StringIO()):
-                    np.random.seed(seed + i)
-                    res = fs.fit_from_string(f, BASIS, lik, verbose=False, Niter=60, Nconv=10)
-                nll2, DL2, lab2 = res[0], res[1], res[2]
-                if len(lab2) == len(labels):
-                    dl2_cf = cf["nll"] + cf["codelen"] + oracle_mdl.aifeyn(lab2)
-                    if abs(nll2 - cf["nll"]) > TOL or abs(DL2 - dl2_cf) > 2 * TOL:
-                        ctx.fail("string-entry-vs-closed-form", "fit_from_string(%r) -> labels %r: nll %.8g DL %.8g, closed form nll %.8g DL %.8g" % (f, lab2, nll2, DL2, cf["nll"], dl2_cf), rp)
-                    ctx.extra["string_entry_compared"] = ctx.extra.get("string_entry_compared", 0) + 1
-            except Exception:
+            if res.get("string_compared"):
+                ctx.extra["string_entry_compared"] = ctx.extra.get("string_entry_compared", 0) + 1
+            if res.get("string_raised"):
                 ctx.extra["string_entry_raised"] = ctx.extra.get("string_entry_raised", 0) + 1
-            ctx.sample(dict(labels=labels, fcn=f, single=[nll, DL], closed_form=[cf["nll"], dl_cf], reported=rep), cap=4)
-    ctx.extra["corr_obligations"] = 3
+            ctx.sample(dict(labels=labels, fcn=f, single=[nll, DL], closed_form=[cf["nll"], res["dl_cf"]], reported=res["reported"]), cap=4)
+    snapping_cases(ctx, fs, L, deep_single, tstat, aif_calls)
+    # the calls of aifeyn_complexity single_function really made (its own labels / param_list) against the Lean model
+    if aif_calls:
+        lines = [" ".join(("aifeyn %d %s %d %s" % (len(l), " ".join(l), len(p), " ".join(p))).split()) for (l, p), _ in aif_calls]
+        try:
+            for ln, mo, (_, val) in zip(lines, common.model(lines), aif_calls):
+                mt = mo.split()
+                tstat["aifeyn_calls_vs_model"] += 1
+                if not (len(mt) == 5 and mt[0] == "ok" and _close(common.b2f(mt[1]), val, 1e-9, 1e-12)):
+                    ctx.disagree("corr:aifeyn-step4", "inside single_function: %s: code=%r model=%s" % (ln, val, mo))
+        except Exception as e:
+            ctx.disagree("corr:aifeyn-step4", "model driver: %r" % (e,))
+    ctx.extra["single_trace"] = tstat
+    if tstat["traced"] == 0:
+        ctx.disagree("corr:single-trace", "no call of single_function could be traced")
+    ctx.extra["corr_obligations"] = 5
     ctx.extra["corr_discharged"] = (int(not any(f["key"].startswith("single") or f["key"].startswith("string") or f["key"].startswith("pipeline") for f in ctx.failures))
                                     + int(not any(f["key"].startswith("fisher-vs-match") for f in ctx.failures) and not any(d["name"] == "fvm:harness" for d in ctx.disagreements))
-                                    + int(not any(d["name"] in ("corr:hfin_needed", "fvm:excluded-point") for d in ctx.disagreements)))
+                                    + int(not any(d["name"] in ("corr:hfin_needed", "fvm:excluded-point") for d in ctx.disagreements))
+                                    + int(tstat["traced"] > 0 and not any(d["name"] == "corr:single-trace" for d in ctx.disagreements))
+                                    + int(not any(d["name"] == "corr:aifeyn-step4" for d in ctx.disagreements) and not any(f["key"].startswith("tree-codelen") for f in ctx.failures)))
 
 
 def replay(ctx, data):
@@ -456,5 +776,32 @@ def replay(ctx, data):
         for kind, msg in bad:
             print("replay: %s: %s" % (kind, msg))
         return not bad
+    if data.get("kind") == "step4":
+        import esr.generation.generator as generator
+        val = float(generator.aifeyn_complexity(list(data["labels"]), list(data["params"])))
+        want = oracle_mdl.aifeyn(data["labels"])
+        print("replay: aifeyn_complexity(%r, %r) = %.12g ; k ln n + sum ln|c| = %.12g" % (data["labels"], data["params"], val, want))
+        return _close(val, want, 1e-9, 1e-12)
+    if data.get("kind") == "single" and data.get("fcn") and data.get("labels"):
+        # the data set is a function of the seed; the single API, the closed form and the exact-sum statement are re-run
+        # (the pipeline row of the same line needs the whole pipeline: re-run `check.py C20` with the same VERIF_SEED for that)
+        import esr.fitting.likelihood as L
+        import esr.fitting.fit_single as fs
+        rs, x, y, s = _dataset(data["seed"])
+        if data.get("y"):
+            y = np.array(data["y"], dtype=float)
+        dd = os.path.join(ctx.tmp, "c20_replay"); os.makedirs(dd, exist_ok=True)
+        fitlib.write_data(os.path.join(dd, "d.txt"), x, y, s)
+        with contextlib.redirect_stdout(io.StringIO()):
+            lik = L.GaussLikelihood("d.txt", "c20_replay", data_dir=dd, fn_set="core_maths")
+        m = oracle_mdl.linear_model(data["fcn"])
+        cf = oracle_mdl.closed_form(x, y, s, m) if m is not None else None
+        if cf is None:
+            print("replay: %r is not linear in its parameters / ill-posed on this data set" % data["fcn"]); return True
+        res = _single_case(fs, lik, data["labels"], data["fcn"], cf, data.get("np_seed", data["seed"]))
+        print("replay: single_function(%r) -> nll %r DL %r ; closed form nll %r DL %r" % (data["labels"], res.get("nll"), res.get("DL"), cf["nll"], res.get("dl_cf")))
+        for key, what in res["fails"]:
+            print("replay: %s: %s" % (key, what))
+        return not res["fails"]
     print("replay: re-run `check.py C20` with VERIF_SEED=%s (the data set is derived from the seed)" % data.get("seed"))
     return True
